@@ -55,7 +55,11 @@ func (bvl *blockCommitVoteList) VerifyBlock(block module.BlockData, validators m
 	for i, item := range bvl.Items {
 		msg.Timestamp = item.Timestamp
 		msg.setSignature(item.Signature)
-		index := validators.IndexOf(msg.address())
+		addr := msg.address()
+		if addr == nil {
+			return nil, errors.Errorf("bad signature at index %d in vote list", i)
+		}
+		index := validators.IndexOf(addr)
 		if index < 0 {
 			return nil, errors.Errorf("bad voter %v at index %d in vote list", msg.address(), i)
 		}
